@@ -20,11 +20,39 @@ Definition out_C55 (ps : list (bytes * bytes)) (body resp : bytes) : val :=
   let '(st, code) := client_stream resp in
   VL [VB (do_written ps body); VB st; VZ code].
 
+(* ---- op 2: Transport.RoundTrip end to end ----
+   input [2 method scheme host remote path query proto clen [[hname [hval ...]] ...] root [[ename eval] ...] body resp]
+   output [written rterr status body bodyerr] *)
+Definition dec_hdr (v : val) : option (bytes * list bytes) :=
+  match v with VL [VB k; vs] => match as_LB vs with Some l => Some (k, l) | None => None end | _ => None end.
+Definition dec2_C55 (i : val) : option (freq * bytes * bytes) :=
+  match i with
+  | VL [VZ 2; VB method; VB scheme; VB host; VB remote; VB path; VB query; VB proto; VZ clen; VL hs; VB root; VL es; VB body; VB resp] =>
+    match all_some (map dec_hdr hs), all_some (map dec_pair es) with
+    | Some hdrs, Some env => Some (mkReq method scheme host remote path query proto clen hdrs root env, body, resp)
+    | _, _ => None
+    end
+  | _ => None
+  end.
+
+Definition out2_C55 (ps : list (bytes * bytes)) (body resp : bytes) : val :=
+  let '(st, code) := client_stream resp in
+  match parse_reply st code with
+  | Some (rterr, status, rbody) =>
+    VL [VB (do_written ps body); VZ rterr; VZ status; VB rbody;
+        VZ (if rterr =? 0 then (if code =? 0 then 0 else 1) else 0)]
+  | None => VErr 7                      (* reply outside the modelled sub-language: never generated *)
+  end.
+
 (* the model's answer for the parameter order given in the input (Go iterates the map in an arbitrary order) *)
 Definition run_C55 (i : val) : val :=
   match dec_C55 i with
   | Some (ps, body, resp) => out_C55 ps body resp
-  | None => VErr 0
+  | None =>
+    match dec2_C55 i with
+    | Some (q, body, resp) => out2_C55 (meta_pairs q) body resp
+    | None => VErr 0
+    end
   end.
 
 (* [-1 8]: the harness refuses inputs with duplicate names (they are not a map) *)
@@ -45,7 +73,20 @@ Definition agree_C55 (i o : val) : bool :=
       end
     | None => false
     end
-  | _, _ => false
+  | _, _ =>
+    match dec2_C55 i, o with
+    | Some (q, body, resp), VL [VB w; VZ _; VZ _; VB _; VZ _] =>
+      match spec_request w with
+      | Some (l, _) =>
+        (length l =? length (meta_pairs q))%nat &&
+        match reorder (map fst l) (meta_pairs q) with
+        | Some ps' => val_eqb (out2_C55 ps' body resp) o
+        | None => false
+        end
+      | None => false
+      end
+    | _, _ => false
+    end
   end.
 
 Definition has_end (resp : bytes) : bool := existsb (fun r => f_type r =? T_END) (fst (spec_records resp)).
@@ -65,12 +106,32 @@ Definition prop_C55 (i o : val) : bool :=
     end
     && bytes_eqb st (spec_stdout resp)
     && (if has_end resp then code =? 0 else true)
-  | _, _ => false
+  | _, _ =>
+    match dec2_C55 i, o with
+    | Some (q, body, resp), VL [VB w; VZ rterr; VZ status; VB rbody; VZ bodyerr] =>
+      (* the request: body unchanged, every expected CGI meta-variable present with its value *)
+      match spec_request w with
+      | Some (l, b) => bytes_eqb b body && forallb (fun e => existsb (pair_eqb e) l) (spec_meta q) && distinct_keys l
+      | None => false
+      end
+      (* the response (checked for complete replies): status and body come from the STDOUT stream only *)
+      && (if has_end resp
+          then match parse_reply (spec_stdout resp) 0 with
+               | Some (e, s, b) => (rterr =? e) && (status =? s) && bytes_eqb rbody b && (bodyerr =? 0)
+               | None => true
+               end
+          else true)
+    | _, _ => false
+    end
   end.
 
 (* finding 1: content of non-STDOUT records (STDERR, ...) is merged into the response *)
 Definition kf_C55 (i : val) : Z :=
   match dec_C55 i with
   | Some (_, _, resp) => if has_other_content resp then 1 else 0
-  | None => 0
+  | None =>
+    match dec2_C55 i with
+    | Some (_, _, resp) => if has_other_content resp then 1 else 0
+    | None => 0
+    end
   end.
